@@ -159,7 +159,7 @@ pub const C05: Spec = Spec {
   judge: c05_judge,
   opts: Opts::default,
   quick: (8, 15000),
-  thorough: (16, 20000),
+  thorough: (16, 250000),
   extra: None,
   strategy: Some(c05_strategy),
   assumptions: &["the injected read and the writer's write are unconditional, so recorded and real accesses of g coincide in every state"],
@@ -238,7 +238,7 @@ pub const C06: Spec = Spec {
   judge: c06_judge,
   opts: Opts::default,
   quick: (8, 15000),
-  thorough: (16, 20000),
+  thorough: (16, 250000),
   extra: None,
   strategy: Some(c06_strategy),
   assumptions: &["both writes of the injected resource are unconditional, so a recorded writer is a real writer in every state"],
@@ -314,7 +314,7 @@ pub const C07: Spec = Spec {
   judge: c07_judge,
   opts: Opts::default,
   quick: (8, 15000),
-  thorough: (16, 20000),
+  thorough: (16, 250000),
   extra: None,
   strategy: Some(c07_strategy),
   assumptions: &["the interpreter's own execution stack is ground truth for 'still executing'"],
